@@ -24,6 +24,7 @@ for patch in "$DIR"/*"$SUF"/OUT/patch*.diff; do
   grep -q '^+++ b/packages/ec-core/' "$patch" && IDS="$IDS $CORE"
   grep -q '^+++ b/packages/.*-macros/' "$patch" && IDS="$ALL"
   IDS="$(echo $IDS | tr ' ' '\n' | sort -u | tr '\n' ' ')"
+  if [ -n "${BENIGN_ONLY_OWN:-}" ]; then own="$(basename "$(dirname "$(dirname "$patch")")")"; IDS="C${own:1:2}"; fi
   for id in $IDS; do
     out="$(cd "$LAB/verif" && VERIF_SKIP_MIRI=1 ./check "$id" quick 2>&1)"; rc=$?
     if [ $rc -ne 0 ]; then bad="$bad $id(rc=$rc:$(echo "$out" | grep -E 'key=|HARNESS' | head -2 | cut -c1-160 | tr '\n' ' '))"; fi
